@@ -111,6 +111,22 @@ def _parse(output):
     return res
 
 
+_HASSERTS = None
+
+
+def _is_harness_assert(desc):
+    """is this failed-check description one of the `assert!(..)` lines of the harness files (functional assertion), not a panic of the code under test"""
+    global _HASSERTS
+    if _HASSERTS is None:
+        _HASSERTS = set()
+        for f in os.listdir(HARNESS_DIR):
+            if f.endswith(".rs"):
+                for m in re.finditer(r"assert!\((.*)\);", open(os.path.join(HARNESS_DIR, f)).read()):
+                    _HASSERTS.add(re.sub(r"\s+", "", m.group(1)))
+    d = re.sub(r"\s+", "", desc)
+    return any(d.endswith("assertionfailed:" + a) or ("assertionfailed:" + a) in d for a in _HASSERTS)
+
+
 _KCACHE = {}      # harness -> {"hr": parsed result or None, "concrete": str or None, "cmd": str, "problem": str or None}
 
 
@@ -212,6 +228,14 @@ def run_harnesses(pid, harnesses, tier, cov, cmds, scratch_root):
         else:
             unwinding = [f for f in hr["failed"] if "unwinding assertion" in f]
             real = [f for f in hr["failed"] if "unwinding assertion" not in f]
+            if pid == "C14":
+                # C14 uses the decoder harnesses for panic-freedom only: a failed check that is one of the harness's own functional
+                # assertions (what the decoder accepts) is another property's matter
+                real_panics = [f for f in real if not _is_harness_assert(f)]
+                if real and not real_panics:
+                    cov["obligations"] += 0
+                    continue
+                real = real_panics
             if unwinding and not real:
                 out["inconclusive"].append("kx: unwinding bound too small for %s on the current tree" % h)
                 continue
